@@ -110,13 +110,16 @@ def _word(t):
     return True
 
 
+_ICO_CLASSES = ["$", "#", "/", "-"]      # partition classes of the leading characters (+ "other")
+
+
 def invalid_char_offsets(t: str, allow: bool) -> bool:
     """
     pre: 1 <= len(t) <= R.N(3)
     pre: _one_tag_text(t)
     pre: R.ascii_printable(t)
     pre: all(c != ":" for c in t)
-    pre: R.env_int("VP_LEN") is None or len(t) == R.env_int("VP_LEN")
+    pre: R.scell(t, _ICO_CLASSES)
     post: _
     """
     s = "(" + t + ")"
@@ -681,11 +684,11 @@ HARNESSES = [
                 "whole tag by design; index pairs outside the tag (callers' arithmetic is C03/C01's subject)"),
     R.H("invalid_char_offsets", ["hed.validator.util.char_util.CharValidator.check_tag_invalid_chars",
                                  "hed.validator.util.char_util.CharValidator._check_invalid_chars"] + _T_SUB,
-        quick=R.tier(cells=R.int_cells("VP_LEN", 1, 3), env={"VP_N": 3}, timeout=400,
-                     bound="every printable-ASCII tag text t (no delimiter, colon or outer blank), 1 <= len(t) <= 3, "
+        quick=R.tier(cells=R.str_cells(2, split1_from=2, nclass=5, minlen=1), env={"VP_N": 2}, timeout=400,
+                     bound="every printable-ASCII tag text t (no delimiter, colon or outer blank), 1 <= len(t) <= 2, "
                            "in the annotation (t); placeholders allowed or not"),
-        thorough=R.tier(cells=R.int_cells("VP_LEN", 1, 4), env={"VP_N": 4}, timeout=1800, path_timeout=60,
-                        bound="same with len(t) <= 4"),
+        thorough=R.tier(cells=R.str_cells(3, split1_from=2, split2_from=3, nclass=5, minlen=1), env={"VP_N": 3},
+                        timeout=1800, path_timeout=60, bound="same with len(t) <= 3"),
         what="the caller's index arithmetic: the tag-name character check reports one CHARACTER_INVALID issue per "
              "character outside [A-Za-z0-9-_/] (and '#' when placeholders are allowed), in order, each with offsets "
              "selecting exactly that occurrence (also when the same character occurs twice) and a message quoting "
